@@ -65,7 +65,8 @@ class SqlSide:
                pre_store=None):
     self.compiled = real.compile_pred(text, pred, import_root=import_root)
     self.statements = self.compiled.statements()
-    self.sql = '\n'.join(s if s.rstrip().endswith(';') else s + ';' for s in self.statements if s.strip())
+    # the script is taken the way the CLI's sqlite3_logica.RunSqlScript hands it to SQLite
+    self.sql = '\n'.join(s if s.rstrip().endswith(';') else s + ';' for _k, s in real.executed_texts(self.statements) if s.strip())
     self.parsed = sqlparse.parse_script(self.sql)
     store = D.store()
     if pre_store:
